@@ -1355,6 +1355,10 @@ func main() {
 			decisionFunc("driver/generic/sendcommands.go", "Driver.SendCommands"))
 		fmt.Fprintf(&sw, "(* response/multi.go MultiResponse.AppendResponse *)\nDefinition append_response_code : list dstmt :=\n  %s.\n",
 			decisionFunc("response/multi.go", "MultiResponse.AppendResponse"))
+		fmt.Fprintf(&sw, "(* driver/generic/sendcommand.go Driver.sendCommand *)\nDefinition send_command_code : list dstmt :=\n  %s.\n",
+			decisionFunc("driver/generic/sendcommand.go", "Driver.sendCommand"))
+		fmt.Fprintf(&sw, "(* driver/network/sendconfig.go Driver.SendConfig *)\nDefinition send_config_code : list dstmt :=\n  %s.\n",
+			decisionFunc("driver/network/sendconfig.go", "Driver.SendConfig"))
 		sp := filepath.Join(filepath.Dir(*out), "GeneratedSkel.v")
 		olds, _ := os.ReadFile(sp)
 		if !bytes.Equal(olds, sw.Bytes()) {
